@@ -6,7 +6,13 @@ use std::collections::BTreeMap;
 use std::panic::{catch_unwind, AssertUnwindSafe};
 
 #[derive(Clone, PartialEq, Debug)]
-pub struct Tk(pub u32);
+/// the tracked component: 12 bytes with alignment 4 (size differs from alignment); field 0 is the value,
+/// the padding must travel with it
+pub struct Tk(pub u32, pub [u32; 2]);
+#[allow(non_snake_case)]
+pub fn TkNew(v: u32) -> Tk {
+    Tk(v, [v ^ 0xA5A5_A5A5, !v])
+}
 pub struct Filler(pub u64);
 pub struct M1(pub u8);
 pub struct M2(pub u16);
@@ -61,7 +67,7 @@ pub fn run(args: &[u64], out: &mut Out) {
                         _ => ty.add::<M3>(),
                     };
                     let mut b = ty.into_batch(1);
-                    let _ = b.writer::<Tk>().unwrap().push(Tk(v));
+                    let _ = b.writer::<Tk>().unwrap().push(TkNew(v));
                     match nbatch % 3 {
                         0 => drop(b.writer::<M1>().unwrap().push(M1(1))),
                         1 => drop(b.writer::<M2>().unwrap().push(M2(2))),
@@ -73,10 +79,10 @@ pub fn run(args: &[u64], out: &mut Out) {
                 } else if v % 4 == 2 {
                     // through a reservation: the id comes from the free list exactly as spawn would take it
                     let h = world.reserve_entity();
-                    world.insert_one(h, Tk(v)).unwrap();
+                    world.insert_one(h, TkNew(v)).unwrap();
                     h
                 } else {
-                    world.spawn((Tk(v), Filler(7)))
+                    world.spawn((TkNew(v), Filler(7)))
                 };
                 hs.push(h);
                 out.push(h.to_bits().into());
@@ -88,11 +94,23 @@ pub fn run(args: &[u64], out: &mut Out) {
             }
             3 => {
                 let (i, v) = (next(&mut p), next(&mut p) as u32);
-                out.push(world.insert_one(href(&hs, i), Tk(v)).is_err() as u64);
+                out.push(world.insert_one(href(&hs, i), TkNew(v)).is_err() as u64);
+                if v % 2 == 1 {
+                    // an insert the tracker does not care about, on the same entity (same source archetype as the
+                    // exchange route of the removal below uses)
+                    let _ = world.insert_one(href(&hs, i), M1(1));
+                }
             }
             4 => {
                 let i = next(&mut p);
-                out.push(match world.remove_one::<Tk>(href(&hs, i)) {
+                // even indices remove T through exchange_one (T out, an unrelated marker in): the same outcome for T
+                let res = if i % 2 == 0 { world.exchange_one::<Tk, M1>(href(&hs, i), M1(2)) } else { world.remove_one::<Tk>(href(&hs, i)) };
+                if let Ok(t) = &res {
+                    if t.1 != [t.0 ^ 0xA5A5_A5A5, !t.0] {
+                        out.flag(format!("C18/C04: the removed component's bytes were damaged: {:?}", (t.0, t.1)));
+                    }
+                }
+                out.push(match res {
                     Ok(_) => 0,
                     Err(ComponentError::NoSuchEntity) => 1,
                     Err(ComponentError::MissingComponent(_)) => 2,
